@@ -118,8 +118,9 @@ func vFlowForValidation(label string, n int, entries int) []FlowNode {
 		node.JumpIf = map[string]string{}
 		for e := 0; e < entries; e++ {
 			if verifBool(label + ".hasJump") {
-				key := verifString(label+".result", 2)
-				verifAssume(key == "r1" || key == "r2" || key == "zz")
+				// declared results are r1, r2; undeclared keys before, between and after them
+				key := verifString(label+".result", 3)
+				verifAssume(key == "r1" || key == "r2" || key == "zz" || key == "aa" || key == "r1a")
 				node.JumpIf[key] = vTarget(label+".target", false)
 			}
 		}
